@@ -785,7 +785,9 @@ void c13_case(Ctx& c, const C13Schema& sc, const std::vector<int>& order /* perm
     }
     int checks = 0;
     ++checks; if (defined != (res != nullptr)) c.fail(P + "defined-vs-execute", "IsCorrectlyDefined and Execute disagree", res ? "result" : "null", defined ? "result" : "null");
-    ++checks; if (exactKey(*F) != key0) { c.fail(P + "source-modified", "the source schema changed", exactKey(*F), key0); c.done(); return; }
+    // the source is const for the operation: observable content compared after every selection, the exact private-state key once at the end
+    { const View now = snapshot(*F); bool same = now.items.size() == V.items.size(); for (size_t i = 0; same && i < n; ++i) same = sameContent(now.items[i], V.items[i]);
+      ++checks; if (!same) { c.fail(P + "source-modified", "the source schema changed", show(now), show(V)); return; } }
     c.rep.count("evaluations");
     // transitive closure / least fixpoint (own code)
     unsigned closure = mask; for (bool ch = true; ch;) { ch = false; for (size_t i = 0; i < n; ++i) if ((closure & (1u << i)) && (deps[i] & ~closure)) { closure |= deps[i]; ch = true; } }
@@ -841,6 +843,8 @@ void c13_case(Ctx& c, const C13Schema& sc, const std::vector<int>& order /* perm
     if (got != mask || renumbered) c.rep.count("nontrivial");
     c.rep.outcome(std::string(opn) + (got == mask ? "-selection-only" : "-grown") + (renumbered ? "-renumbered" : "") + (R.allVerified() ? "-correct" : "-has-incorrect") + (op == 1 && membersOk && got != least ? "-nonleast-fixpoint" : ""));
   }
+  c.cur_desc = baseDesc;
+  if (exactKey(*F) != key0) c.fail(P + "source-modified", "the source schema (exact private state) changed while serving the selections", exactKey(*F), key0);
 }
 
 void run_c13(Ctx& c, const Options& opt, int op) {
